@@ -301,7 +301,7 @@ where
 fn roundtrip<M: MkId + Component>(spec: &WorldSpec) -> Result<String, String>
 where
     M::Storage: Default,
-    M::Allocator: Default,
+    M::Allocator: Default + Clone,
     M::Identifier: std::fmt::Debug,
 {
     let mut src = new_world::<M>();
@@ -386,6 +386,19 @@ where
         let ents = src.entities();
         let stg = src.read_storage::<M>();
         alloc.maintain(&ents, &stg);
+    }
+    if spec.src_history {
+        // ... and the allocator in use from here on is a copy of the one that handed out the ids
+        // (clone for odd `marked`, clone_from into a fresh allocator for even)
+        let mut alloc = src.write_resource::<M::Allocator>();
+        if spec.marked % 2 == 1 {
+            let copy = (*alloc).clone();
+            *alloc = copy;
+        } else {
+            let mut fresh = M::Allocator::default();
+            fresh.clone_from(&*alloc);
+            *alloc = fresh;
+        }
     }
     // expected transfer set: marked entities, plus (recursive) everything reachable
     let mut expect_set: BTreeSet<usize> = (0..spec.n).filter(|i| spec.marked & (1 << i) != 0).collect();
@@ -648,6 +661,9 @@ fn c14(cli: &Cli) -> ! {
 pub enum Op {
     CreateNow,
     CreateDeferred,
+    /// `lazy.create_entity(&entities).marked::<M>().build()`: the marker arrives with the next
+    /// maintain - unless the entity got one in the meantime, which must then be kept
+    CreateLazyMarked,
     Mark(u8),
     SetPa(u8),
     DeleteNow(u8),
@@ -702,6 +718,7 @@ struct Run {
     st: Vec<St>,
     pending: Vec<bool>,
     marker: Vec<Option<u64>>,
+    lazy_mark: Vec<bool>,
     pa: Vec<Option<u32>>,
     pb: Vec<Option<u8>>,
     register: Option<Vec<Rec>>,
@@ -737,6 +754,7 @@ impl Run {
         self.st.push(st);
         self.pending.push(false);
         self.marker.push(None);
+        self.lazy_mark.push(false);
         self.pa.push(None);
         self.pb.push(None);
         self.created += 1;
@@ -759,6 +777,20 @@ impl Run {
                 }
                 let e = self.w.entities().create();
                 self.new_slot(e, St::Unmerged);
+            }
+            Op::CreateLazyMarked => {
+                if budget < 1 {
+                    return false;
+                }
+                let e = {
+                    use specs::saveload::MarkedBuilder;
+                    let ents = self.w.entities();
+                    let lazy = self.w.read_resource::<LazyUpdate>();
+                    lazy.create_entity(&ents).marked::<SM>().build()
+                };
+                self.new_slot(e, St::Unmerged);
+                let s = self.h.len() - 1;
+                self.lazy_mark[s] = true;
             }
             Op::Mark(s) => {
                 if !ok_slot(s) {
@@ -838,6 +870,25 @@ impl Run {
                     }
                     if self.pending[s] && self.st[s] != St::Dead {
                         self.die(s);
+                    }
+                }
+                // lazily requested markers arrive now (after the merge): kept if one exists
+                for s in 0..self.h.len() {
+                    if !std::mem::replace(&mut self.lazy_mark[s], false) {
+                        continue;
+                    }
+                    let got = self.w.read_storage::<SM>().get(self.h[s]).map(|m| m.id());
+                    self.tr = fold64(self.tr, got.map(|g| g + 1).unwrap_or(0));
+                    match (self.st[s], self.marker[s], got) {
+                        (St::Dead, _, None) => {}
+                        (St::Dead, _, Some(g)) => fail!(self, "mark-dead: the lazily requested marker {} arrived on dead slot {}", g, s),
+                        (_, Some(old), g) => {
+                            if g != Some(old) {
+                                fail!(self, "mark-again: slot {} carried marker {} when its lazily requested marker arrived; it now carries {:?}", s, old, g);
+                            }
+                        }
+                        (_, None, None) => fail!(self, "mark-refused: the lazily requested marker for live slot {} never arrived", s),
+                        (_, None, Some(g)) => self.marker[s] = Some(g),
                     }
                 }
             }
@@ -982,7 +1033,7 @@ impl Run {
                     *rank.entry(v).or_insert(n)
                 }
             });
-            (self.h[s].id(), self.h[s].gen().id(), self.st[s], self.pending[s], self.marker[s], pa, self.pb[s]).hash(&mut h);
+            (self.h[s].id(), self.h[s].gen().id(), self.st[s], self.pending[s], self.marker[s], self.lazy_mark[s], pa, self.pb[s]).hash(&mut h);
         }
         // allocator: counter and mapping
         let alloc = self.w.read_resource::<SimpleMarkerAllocator<Tag>>();
@@ -1012,6 +1063,9 @@ impl Run {
         if self.created < n_create {
             v.push(Op::CreateNow);
             v.push(Op::CreateDeferred);
+            if !self.lazy_mark.iter().any(|x| *x) {
+                v.push(Op::CreateLazyMarked);
+            }
         }
         for s in 0..self.h.len() as u8 {
             v.push(Op::Mark(s));
@@ -1044,7 +1098,7 @@ impl Run {
 impl Sl {
     fn run_inner(&self, ops: &[Op], full: bool) -> Outcome<Op> {
         let _junk: Vec<Box<[u8; 56]>> = if self.perturb { (0..17).map(|_| Box::new([1u8; 56])).collect() } else { vec![] };
-        let mut r = Run { w: new_world::<SM>(), h: vec![], st: vec![], pending: vec![], marker: vec![], pa: vec![], pb: vec![], register: None, created: 0, viol: None, quiet: self.transcript_only, tr: 0, next_pa: 1000 };
+        let mut r = Run { w: new_world::<SM>(), h: vec![], st: vec![], pending: vec![], marker: vec![], lazy_mark: vec![], pa: vec![], pb: vec![], register: None, created: 0, viol: None, quiet: self.transcript_only, tr: 0, next_pa: 1000 };
         for (i, op) in ops.iter().enumerate() {
             if !r.apply(op, self.n_create) {
                 return Outcome::invalid();
